@@ -46,10 +46,10 @@ PROPS = {
                    "repeated signers, other votes, bad signatures and then leaves the certificate unchanged, accepts every vote that "
                    "satisfies those conditions (completeness of add), and changes exactly one bit. For all committee sizes and weights.",
         level_note="Trusted (listed per run in evidence): BLS via blst (Signed::verify, AggregateSignature::{add,verify_messages} are "
-                   "uninterpreted predicates), keccak, bit_vec::BitVec, std iterator adapters behind 5 pipeline templates whose closures "
-                   "are the repository's and are verified, BTreeMap as an ordered map with distinct keys, Schedule accessors (proved in "
-                   "unit leader). One statement is abstracted and NOT verified: the nested flat_map key-selection expression in "
-                   "TimeoutQC::verify (assumed to produce all (vote,key) pairs). Only Ok-ness is specified, not which error variant. "
+                   "uninterpreted predicates), keccak, bit_vec::BitVec, std iterator adapters behind 7 pipeline templates whose closures "
+                   "are the repository's and are verified (including the nested flat_map key selection of TimeoutQC::verify), BTreeMap as "
+                   "an ordered map with distinct keys, Schedule accessors (proved in unit leader). No statement of these functions is "
+                   "abstracted. Only Ok-ness is specified, not which error variant. "
                    "The 'assembled certificate verifies' direction is proved per add() step; the aggregation axiom linking agg_add to "
                    "agg_ok is cryptographic and not assumed, so end-to-end completeness of verify after adds is not claimed.",
         technique="contract-based deductive verification (Verus on extracted real functions; iterator pipelines through assumed templates with verified closures)",
